@@ -4,8 +4,9 @@ from concurrent.futures import ThreadPoolExecutor
 
 VERIF = os.path.dirname(os.path.dirname(os.path.abspath(__file__)))
 REPO = os.environ.get("VSA_REPO", "/repo")
-GEN = os.path.join(VERIF, "cache", "gen")
-OUT = os.path.join(VERIF, "cache", "facts")
+_tag = hashlib.sha1(REPO.encode()).hexdigest()[:8]
+GEN = os.path.join(VERIF, "cache", "gen-" + _tag)
+OUT = os.path.join(VERIF, "cache", "facts-" + _tag)
 EXPORTER = os.path.join(VERIF, "bin", "vsa-export")
 
 
@@ -55,7 +56,7 @@ def _one(unit, names, tag):
     os.makedirs(OUT, exist_ok=True)
     key = hashlib.sha1((unit + "|" + (names or "") + "|" + tag).encode()).hexdigest()[:16]
     out = os.path.join(OUT, key + ".json")
-    cmd = [EXPORTER, "--out=" + out]
+    cmd = [EXPORTER, "--out=" + out, "--root=" + REPO.rstrip("/") + "/"]
     if names:
         cmd.append("--names=" + names)
     if unit.startswith(VERIF):
